@@ -19,7 +19,6 @@ def make(rng):
     env = [('wait', rng.randint(0, poll), ('data', sc.good_reply()))]
     ncyc = rng.randint(3, 30)
     close_at = rng.choice([None, None, rng.randint(3, 12)])
-    reply_close_after = rng.choice([None, 0, 1, 3, 8])
     for k in range(ncyc):
         r = rng.random()
         if r < 0.45:
@@ -37,7 +36,11 @@ def make(rng):
                 data = server_frame(10, b'p') + server_frame(2, b'\x00')
             env.append(('wait', dt, ('data', data)))
     if rng.random() < 0.3:
-        env.append(('wait', rng.randint(0, poll), ('data', server_frame(8, close_payload(1000, b'')))))
+        step = ('wait', rng.randint(0, poll), ('data', server_frame(8, close_payload(1000, b''))))
+        if rng.random() < 0.5:
+            env.insert(rng.randint(1, len(env)), step)      # the server's Close (a reply to ours, or its own) arrives anywhere in the history
+        else:
+            env.append(step)
         env += [('wait', poll, None)] * rng.randint(0, 8)
     env.append(('wait', rng.randint(0, poll), ('eof',)))
     sc.env = env
@@ -109,11 +112,11 @@ def judge(res, js, line, real, sc):
     if not polls or polls[0] != 0:
         return fail('no Poll right after Ready')
     for a, b in zip(polls, polls[1:]):
-        if not (p <= b - a < 2 * p):
-            return fail('consecutive Polls %d and %d apart from [p, 2p) with p=%d' % (a, b, p), 'poll-gap')
+        if not (p <= b - a <= 2 * p):        # 'never closer together than p nor further apart than 2p'
+            return fail('consecutive Polls %d and %d apart, outside [p, 2p] with p=%d' % (a, b, p), 'poll-gap')
     end_t = disc[0] if disc else (ticks[-1] if ticks else 0)
-    if polls and end_t - polls[-1] >= 2 * p:
-        return fail('no Poll for %d >= 2p although the connection was up' % (end_t - polls[-1]), 'poll-gap')
+    if polls and end_t - polls[-1] > 2 * p:
+        return fail('no Poll for %d > 2p although the connection was up' % (end_t - polls[-1]), 'poll-gap')
     # ---- automatic Ping
     if r == 0 and pings:
         return fail('automatic Ping written although ping_rate is 0', 'ping')
@@ -130,7 +133,7 @@ def judge(res, js, line, real, sc):
             if lo + p >= closed_from or lo + p > end_t:      # the window must end while the connection is still open
                 break
             # some loop cycle ran in (lo, lo+p] ?  (the environment guarantees cycles at most p apart)
-            if not any(lo < t <= lo + p for t in pings):
+            if not any(lo <= t <= lo + p for t in pings):        # 'within p after every multiple of r' (the multiple itself included)
                 if any(lo < tt <= lo + p for tt in ticks):
                     return fail('no automatic Ping in (%d, %d] (rate %d, poll %d; pings at %s)' % (lo, lo + p, r, p, pings), 'ping')
             k += 1
@@ -165,6 +168,9 @@ def judge(res, js, line, real, sc):
             return fail('close timeout fired although disabled / no Close sent', 'close-timeout')
         if not (sent_close + c <= disc[0] <= sent_close + c + p):
             return fail('forced disconnect at %d, Close sent at %d, timeout %d, poll %d' % (disc[0], sent_close, c, p), 'close-timeout')
+    elif c and sent_close is not None and any(n == 'closed' and t > sent_close + c + p for t, n in seq):
+        tcl = next(t for t, n in seq if n == 'closed')
+        return fail('the closing handshake completed at %d although the Close sent at %d had been unanswered for longer than close_timeout %d + poll %d: no forced disconnect happened in between' % (tcl, sent_close, c, p), 'close-timeout')
     elif c and sent_close is not None and not any(n == 'closed' for _, n in seq):
         if disc and disc[0] > sent_close + c + p:
             return fail('no forced disconnect although the Close sent at %d was unanswered until %d (timeout %d)' % (sent_close, disc[0], c), 'close-timeout')
